@@ -40,8 +40,26 @@ Definition to_vertex (dash : bool) (s : bstep) : jvertex :=
 Definition compile (e : expr) : jpath := map (to_vertex (e_dash e)) (e_steps e).
 
 (* ---- rendering: Vertex.path = ''.join(path_segment) (RecursiveVertex.path appends one more '.') *)
+Definition str_mem (c : ascii) (s : string) : bool :=
+  (fix go (s : string) : bool := match s with EmptyString => false | String d r => Ascii.eqb c d || go r end) s.
+
+Fixpoint escape (q : ascii) (s : string) : string :=
+  match s with
+  | EmptyString => EmptyString
+  | String c r =>
+      if Ascii.eqb c "\"%char then String "\"%char (String "\"%char (escape q r))
+      else if Ascii.eqb c q then String "\"%char (String c (escape q r))
+      else String c (escape q r)
+  end.
+
+(* repr(str): single quotes, unless the text has a single quote and no double quote *)
+Definition py_repr_str (s : string) : string :=
+  if str_mem "'"%char s && negb (str_mem """"%char s)
+  then """" ++ escape """"%char s ++ """"
+  else "'" ++ escape "'"%char s ++ "'".
+
 Definition py_repr_name (n : name) : string :=
-  match n with NStr s => "'" ++ s ++ "'" | NInt z => string_of_Z z end.
+  match n with NStr s => py_repr_str s | NInt z => string_of_Z z end.
 
 Definition opt_slice_part (o : option Z) : string :=
   match o with None => "" | Some z => if Z.eqb z 0 then "" else string_of_Z z end.
@@ -82,11 +100,44 @@ Definition extend (e : expr) (s : bstep) : res expr :=
   | _ => Ok {| e_dash := e_dash e; e_steps := e_steps e ++ [s] |}
   end.
 
+(* ---- traverser/trace.py: log_to(out) -- the line the library's own tracer writes for a Trace
+   (" at <last_match.path_as_str><next_vertex.path_segment> got <repr(next_match.data) cut at 20 chars | no match>");
+   the predicate_match rewriting (" at <path>" -> right-justified " has ") only concerns has-family filters,
+   which this expression language does not build, and is not modelled *)
+(* repr(float) for the halves the generators produce *)
+Definition py_repr_half (h : Z) : string :=
+  let a := Z.abs h in
+  ((if Z.ltb h 0 then "-" else "") ++ string_of_Z (Z.div a 2) ++ (if Z.eqb (Z.modulo a 2) 0 then ".0" else ".5"))%string.
+
+Fixpoint py_repr (d : json) : string :=
+  match d with
+  | JNull => "None"
+  | JBool b => if b then "True" else "False"
+  | JInt z => string_of_Z z
+  | JFloat h => py_repr_half h
+  | JStr s => py_repr_str s
+  | JList _ l => "[" ++ String.concat ", " (map py_repr l) ++ "]"
+  | JDict _ l => "{" ++ String.concat ", " (map (fun kx => (py_repr_str (fst kx) ++ ": " ++ py_repr (snd kx))%string) l) ++ "}"
+  end.
+
+Definition trunc20 (s : string) : string :=
+  if Nat.ltb (String.length s) 20 then s else (substring 0 20 s ++ "...")%string.
+
+Definition log_line (e : expr) (ev : @event json) : list string :=
+  match ev with
+  | EvTrace l n vi _ =>
+      let seg := match nth_error (e_steps e) (vi - 1) with Some s => segment (e_dash e) s | None => "?" end in
+      [(" at " ++ path_as_str l ++ seg ++ " got " ++
+        match n with Some m => trunc20 (py_repr (tdata m)) | None => "no match" end)%string]
+  | _ => []
+  end.
+
 (* ---- histories: a family of live expressions over one document *)
 Inductive bop :=
 | BNew (dash : bool)                 (* exprs.append(path) / exprs.append(pathd) *)
 | BExt (i : nat) (s : bstep)         (* exprs.append(exprs[i] extended by s) *)
-| BFind (i : nat).                   (* list(find_matches(exprs[i], doc)) *)
+| BFind (i : nat)                    (* list(find_matches(exprs[i], doc)) *)
+| BLog (i : nat).                    (* lines = []; list(find_matches(exprs[i], doc, trace=log_to(lines.append))) *)
 
 Record bcase := { b_doc : json; b_ops : list bop }.
 
@@ -100,6 +151,19 @@ Fixpoint drain_all (fuel : nat) (B : positive) (doc : json) (p : jpath) (z : jst
       | (OResult m, z', _) => ON "result" [mref m] :: drain_all f B doc p z'
       | (ORaise EStop, _, _) => []
       | (ORaise e, _, _) => [ON "raise" [oexn e]]
+      end
+  end.
+
+(* results and the tracer's lines of a traced drain *)
+Fixpoint drain_log (fuel : nat) (B : positive) (doc : json) (e : expr) (z : jstate) : list otree * list string :=
+  match fuel with
+  | O => ([ON "cap" []], [])
+  | S f =>
+      match j_next B (SrcDoc doc) (compile e) (Some None) z with
+      | (OResult m, z', es) =>
+          let '(rs, ls) := drain_log f B doc e z' in (ON "result" [mref m] :: rs, flat_map (log_line e) es ++ ls)
+      | (ORaise EStop, _, es) => ([], flat_map (log_line e) es)
+      | (ORaise x, _, es) => ([ON "raise" [oexn x]], flat_map (log_line e) es)
       end
   end.
 
@@ -119,6 +183,13 @@ Definition run_bop (B : positive) (doc : json) (es : list expr) (o : bop) : otre
       match nth_error es i with
       | None => (ON "op" [ON "skip" []; strs es], es)
       | Some e => (ON "op" [ON "find" (drain_all 200 B doc (compile e) init_state); strs es], es)
+      end
+  | BLog i =>
+      match nth_error es i with
+      | None => (ON "op" [ON "skip" []; strs es], es)
+      | Some e =>
+          let '(rs, ls) := drain_log 200 B doc e init_state in
+          (ON "op" [ON "log" [ON "lines" (map OS ls); ON "results" rs]; strs es], es)
       end
   end.
 
